@@ -24,6 +24,17 @@ CHECKS['C07'] = dict(
          '"_metadata" (excluded by construction, witnessed on every run).',
     technique='Hypothesis stateful (model-based) testing against a dict model')
 
+CHECKS['C10'] = dict(
+    engine='zoo+fakes3', category='exploration', design='DESIGN.md 3 C10',
+    text='Hypothesis rule-based state machine: the same logical recordings saved to every real cassette type '
+         '(categories in prefix/underscore relation, JSON metadata with absent keys, incomplete flag), lookups through '
+         'iter_recording_ids / iter_recordings_metadata / find_matching_recording_ids (skip-incomplete on and off, '
+         'limits, ordered and random) compared with the reference filter model and across cassettes.',
+    note='Reference = pbt/refmatch.py over the harness model of what was saved; filters whose meaning the C14 '
+         'statement leaves open for some stored recording are checked for totality only. S3 through the real '
+         'cassette/facade over the fake bucket, incl. the default empty prefix. No date windows here (C16).',
+    technique='Hypothesis stateful testing against a reference model + cross-cassette differential')
+
 ENGINES = [
     ('runner', 'pbt/runner.py', 'seed/tier handling, Hypothesis drivers, sharding, evidence writer', None),
     ('refmatch', 'pbt/refmatch.py', 'reference model of metadata filter matching written from the statement',
